@@ -3,7 +3,7 @@ from tools.vlib import hx
 
 ID = "C19"
 LEVEL = "proof"
-DRIVER = {"srcs": ["harness/c19_driver.cc"], "sdk": True}
+DRIVER = {"srcs": ["harness/c19_driver.cc", "harness/c19_noregex.cc"], "sdk": True}
 TRIVIAL_TAGS = {"name_empty", "met_empty", "tr_empty", "lg_empty", "pred_unmodelled"}
 ASSUMPTIONS = [
     "std::regex (ECMAScript) behaves as the char-class / literal / '.' / '*' matcher of the model on the generated patterns; "
@@ -14,6 +14,8 @@ ASSUMPTIONS = [
     "a stream is observed after exactly one measurement per instrument and one Collect through a cumulative MetricReader; "
     "histogram bucket boundaries / AggregationConfig of a view are not observed",
     "a unit 'ASCII character' is a byte 0x01..0x7f (a unit with an embedded NUL is rejected by the regex validator)",
+    "the hand-written (#else, no std::regex) validator variant is compiled by harness/c19_noregex.cc from the same source file with "
+    "OPENTELEMETRY_HAVE_WORKING_REGEX forced to 0; it is not called on an empty name (it reads name[0] first)",
 ]
 TRUSTED = ["model coq/C19/Model.v is hand-written; tied by this correspondence run",
            "scope-configurator conditions other than name-equals are the five lambdas written in harness/c19_driver.cc"]
@@ -202,8 +204,8 @@ def met_case(rng, focus=None):
         k = rng.below(12)
         name = rng.choice(BADNAMES) if k == 0 else rng.choice(INAMES)
         unit = rng.choice(BADUNITS) if k == 1 else rng.choice(UNITS)
-        if name in used.setdefault(cur, set()):
-            continue
+        if name in used.setdefault(cur, set()) and focus != "recreate":
+            continue                      # re-creating an instrument is C06's subject (F13); only the "recreate" cases do it
         used[cur].add(name)
         ity = rng.choice([0, 0, 1, 2, 3, 4, 5]) if focus != "sync" else rng.choice([0, 1, 2])
         desc = rng.choice([b"", b"", b"instrument description"])
@@ -306,6 +308,8 @@ def gen(rng, tier):
         cases.append(met_case(rng, "sync"))
     for _ in range(200 * n):
         cases.append(met_case(rng, "versioned"))
+    for _ in range(40 * n):               # correspondence only: the SPEC skips the stream clauses when a name is re-used
+        cases.append(met_case(rng, "recreate"))
     for _ in range(250 * n):
         cases.append(tr_case(rng))
     for _ in range(500 * n):
